@@ -455,6 +455,14 @@ def rule_dp4(ctx: Ctx) -> RuleResult:
                     "DP-4", spec, kind, cfg, p, "the segment boundary is decided by '%s' instead of value (in)equality of the predicates" % show(b.test),
                     node=b.node, extra="boundary-op"))
             unchanged = any((b.test[1] == "NotEq" and not b.outcome) or (b.test[1] == "Eq" and b.outcome) for b in btests)
+            # the segment is recorded before it is announced: the events are sent into the segment's pipeline, which may raise (the
+            # exception unwinds through split) -- a segment created downstream and not recorded is created again by the next item
+            first_emit = next((k for k, e in enumerate(p.trace) if e.k == "emit"), None)
+            late = [w for w in writes if first_emit is not None and p.trace.index(w) > first_emit]
+            r.ob(not late, lambda late=late: mk_finding(
+                "DP-4", spec, kind, cfg, p, "the predicate of the segment is written (%s) after events were sent into the segment's pipeline: if a function "
+                "there raises, the segment is open downstream and unknown to split, and the next item of the key creates it a second time" % (
+                    late[0].brief()), node=late[0].node, extra="record-before-emit"))
             stored_new = bool(writes) and writes[-1].extra[0] == new
             # the next item is compared with THIS item's predicate value: it is stored on every path.  A value that merely compared equal
             # to it (the one kept since the segment was opened) is not the same thing when == is not transitive on the predicate values
